@@ -24,6 +24,9 @@ open Streams
         `<t>:<ret>:d`       returned and finished its script
         `<t>:-`             thread already finished (decision ignored)
       followed by `| a=<Available> s=<bitset>`
+  mon conc …   same scenario; answer `ok` iff the property's monitors (ids unique and in range, no
+      panic, Available = free ids at the end) hold along the run, `n/a` if the scripts do not respect
+      the client protocol (a Clear of an id that is not held, or two Clears of one id)
 -/
 
 def hexWord (w : Word) : String := String.ofList (Nat.toDigits 16 w.toNat)
@@ -158,7 +161,46 @@ def splitOn (sep : String) (ws : List String) : List (List String) :=
     | w :: r => if w == sep then go r [] (cur.reverse :: acc) else go r (w :: cur) acc
   go ws [] []
 
-def runConc (proto k : Nat) (rest : List String) : String :=
+/-- cache of pre-filled generators: `G<c>` as first token of a sequential prefix is by far the most
+    expensive part of a scenario and is shared by many scenarios (semantically transparent) -/
+abbrev Cache := List ((Nat × Nat) × Shared)
+
+def prefix? (w : String) : Option Nat := if w.startsWith "G" then (w.drop 1).toNat? else none
+
+/-- run a sequential token list from `New(proto)`, going through the cache for a leading `G<c>` -/
+def seqFrom (cache : Cache) (proto : Nat) (toks : List String) : Cache × Option (Shared × List String) :=
+  match toks with
+  | w :: rest =>
+    match prefix? w with
+    | some c =>
+      match cache.lookup (proto, c) with
+      | some sh =>
+        -- the digest of the G token is recomputed only when somebody looks at it (seq lines)
+        (cache, (seqRun sh rest []).map (fun r => (r.1, "G" :: r.2)))
+      | none =>
+        match seqTok (Streams.init (wordsOfProto proto)) w with
+        | some (sh, a) =>
+          (((proto, c), sh) :: cache.take 300, (seqRun sh rest []).map (fun r => (r.1, a :: r.2)))
+        | none => (cache, none)
+    | none => (cache, seqRun (Streams.init (wordsOfProto proto)) toks [])
+  | [] => (cache, seqRun (Streams.init (wordsOfProto proto)) [] [])
+
+/-- non-reserved ids whose bit is set -/
+def idsInUse (ws : List Word) : List Nat :=
+  let rec go (i : Nat) (l : List Word) (acc : List Nat) : List Nat :=
+    match l with
+    | [] => acc.reverse
+    | w :: r =>
+      go (i + 1) r (if w = 0#64 then acc else
+        (List.range 64).foldl (fun acc j => if w.getLsbD (streamOffset j) && (i * 64 + j != 0) then (i * 64 + j) :: acc else acc) acc)
+  go 0 ws []
+
+def clearIds (scripts : List (List SOp)) : List Nat :=
+  scripts.flatten.filterMap (fun o => match o with | .op (.clear id) => some id | _ => none)
+
+/-- result of a lock-step scenario: observations, final machine state, whether the scripts respect
+    the client protocol of the property (static criterion, the same as in the harness) -/
+def runConc (cache : Cache) (proto k : Nat) (rest : List String) : Cache × Option (List String × State × Bool) :=
   -- rest = P pre… T ops… T ops… S digits
   match rest with
   | "P" :: rest =>
@@ -168,32 +210,56 @@ def runConc (proto k : Nat) (rest : List String) : String :=
     let sched : List Nat := match spart with
       | ["S", d] => (d.toList.filter Char.isDigit).map (fun ch => ch.toNat - '0'.toNat)
       | _ => []
-    match seqRun (Streams.init (wordsOfProto proto)) pre [], scriptsW.mapM (fun l => l.mapM parseSOp) with
-    | some (sh, _), some scripts =>
-      if scripts.length ≠ k then "bad-op" else
-      let st0 : State := { sh := sh, threads := List.replicate k .idle, held := [] }
+    match seqFrom cache proto pre, scriptsW.mapM (fun l => l.mapM parseSOp) with
+    | (cache', some (sh, _)), some scripts =>
+      if scripts.length ≠ k then (cache', none) else
+      let inuse0 := idsInUse sh.words
+      let cl := clearIds scripts
+      let protocol := cl.all (fun id => inuse0.contains id) && cl.eraseDups.length == cl.length
+      let st0 : State := { sh := sh, threads := List.replicate k .idle, held := inuse0 }
       let c0 : Conc := { st := st0, scripts := scripts, mine := List.replicate k [] }
       let (c1, acc) := sched.foldl (fun (p : Conc × List String) t =>
           let (c', o) := concStep p.1 t; (c', o :: p.2)) (c0, [])
       let (c2, acc) := finishAll c1 k acc
-      " ".intercalate acc.reverse ++ " | a=" ++ toString (available c2.st.sh) ++ " " ++ showState c2.st.sh.words
-    | _, _ => "bad-op"
-  | _ => "bad-op"
+      (cache', some (acc.reverse, c2.st, protocol))
+    | (cache', _), _ => (cache', none)
+  | _ => (cache, none)
 
-def step (_ : Unit) (ws : List String) : Unit × String :=
-  ((), match ws with
+/-- the property's monitors evaluated on the model run (they can never fire: Proofs/C08) -/
+def monitorsOk (obs : List String) (st : State) : Bool :=
+  let n := 64 * st.sh.words.length
+  decide st.held.Nodup && st.held.all (fun id => 1 ≤ id && id < n)
+    && decide (available st.sh = ((n - 1 - st.held.length : Nat) : Int))
+    && obs.all (fun o => !(o.splitOn "crash").length > 1)
+
+def step (cache : Cache) (ws : List String) : Cache × String :=
+  match ws with
   | "seq" :: p :: ops =>
     match p.toNat? with
     | some proto =>
+      -- sequential lines report the digest of every G token: no cache for the answer itself
       match seqRun (Streams.init (wordsOfProto proto)) ops [] with
-      | some (_, l) => if l.isEmpty then "-" else " ".intercalate l
-      | none => "bad-op"
-    | none => "bad-op"
+      | some (_, l) => (cache, if l.isEmpty then "-" else " ".intercalate l)
+      | none => (cache, "bad-op")
+    | none => (cache, "bad-op")
   | "conc" :: p :: k :: rest =>
     match p.toNat?, k.toNat? with
-    | some proto, some k => runConc proto k rest
-    | _, _ => "bad-op"
-  | _ => "bad-op")
+    | some proto, some k =>
+      match runConc cache proto k rest with
+      | (cache', some (obs, st, _)) =>
+        (cache', " ".intercalate obs ++ " | a=" ++ toString (available st.sh) ++ " " ++ showState st.sh.words)
+      | (cache', none) => (cache', "bad-op")
+    | _, _ => (cache, "bad-op")
+  | "mon" :: "conc" :: p :: k :: rest =>
+    -- spec-backed: `ok` = uniqueness / range / count / no-panic monitors hold along the run
+    match p.toNat?, k.toNat? with
+    | some proto, some k =>
+      match runConc cache proto k rest with
+      | (cache', some (obs, st, protocol)) =>
+        (cache', if !protocol then "n/a" else if monitorsOk obs st then "ok" else "violated:model")
+      | (cache', none) => (cache', "bad-op")
+    | _, _ => (cache, "bad-op")
+  | _ => (cache, "bad-op")
 
-def init : Unit := ()
+def init : Cache := []
 end Driver.C08
